@@ -5,6 +5,7 @@ mod circ;
 mod codec;
 mod faults;
 mod hooks;
+mod leak;
 mod shard;
 mod props;
 mod report;
